@@ -38,6 +38,7 @@ type Ledger struct {
 	CloseLog     []string
 	Dev          Deviations
 	SysLog       []string // when Trace: rendered syscalls
+	ReadErrFds   []int    // descriptors on which an injected read error was returned
 	EventfdReads int      // read(2) calls netpoll issued on eventfd descriptors (poller wake-ups served)
 }
 
@@ -51,6 +52,7 @@ type Deviations struct {
 	CtlFailFd      int  // if non-zero: only registrations of this descriptor may fail
 	SockoptFail    bool
 	PollCreateFail bool // epoll_create1 / eventfd2 fail with EMFILE
+	ReadErr        bool // readv fails with ECONNRESET (a reset connection; AF_UNIX cannot produce it)
 }
 
 var led *Ledger
@@ -496,6 +498,10 @@ func RawSyscall(trap, a1, a2, a3 uintptr) (r1, r2 uintptr, err syscall.Errno) {
 	case syscall.SYS_READV:
 		total := iovTotal((*syscall.Iovec)(unsafe.Pointer(a2)), int(a3))
 		ptf("readv(%d,cap=%d)", a1, total)
+		if led.Dev.ReadErr && vsched.Choose(2, "readv:ECONNRESET") == 1 {
+			led.ReadErrFds = append(led.ReadErrFds, int(a1))
+			return ^uintptr(0), 0, syscall.ECONNRESET
+		}
 		if led.Dev.ReadShort && total > 0 {
 			// options: 0 real, 1 EAGAIN, 2 EINTR, 3.. short
 			so := []int{1, 2}
